@@ -175,16 +175,22 @@ KNOWN_DEFECT_first_value_decides_the_stored_number_type = False  # repaired in /
 
 MIXED_SLOT = {"unset": None, "int": 3, "whole float": 4.0, "float": 2.5, "numpy float": np.float64(-1.5),
               "numpy int": np.int64(7), "negative int": -2}
+# "numeric kinds": the numbers objects hold are as often numpy scalars of some width as Python numbers (exactly
+# representable values; a width the database has no unset marker for may be REFUSED when it comes first, never altered)
+MIXED_SLOT_NUMPY = {"numpy float32": np.float32(0.75), "numpy int32": np.int32(5), "numpy float16": np.float16(1.25),
+                    "numpy uint8": np.uint8(9)}
 
 
 @harness("C05", bounds="collections of 2..3 scalar entries, every entry symbolically one of: unset, int 3, float 4.0, "
-                       "float 2.5, numpy float -1.5, numpy int 7, int -2: all 7^n patterns (mixed kinds of number "
-                       "within one collection), forked", stubs=STUBS, max_paths=5000,
-         instances={"quick": [dict(n=2), dict(n=3)]})
-def mixed_kinds_of_numbers_with_unset_entries_read_back(ctx, n):
-    names = list(MIXED_SLOT)
+                       "float 2.5, numpy float -1.5, numpy int 7, int -2 (widths: also numpy float32 0.75, int32 5, "
+                       "float16 1.25, uint8 9): all 7^n / 11^n patterns (mixed kinds of number within one "
+                       "collection), forked", stubs=STUBS, max_paths=5000,
+         instances={"quick": [dict(n=2), dict(n=3), dict(n=2, widths=True), dict(n=3, widths=True)]})
+def mixed_kinds_of_numbers_with_unset_entries_read_back(ctx, n, widths=False):
+    slots = dict(MIXED_SLOT, **MIXED_SLOT_NUMPY) if widths else MIXED_SLOT
+    names = list(slots)
     what = [ctx.choice("entry%d" % k, names) for k in range(n)]
-    vals = [MIXED_SLOT[w] for w in what]
+    vals = [slots[w] for w in what]
     if all(v is None for v in vals):
         return                         # all-unset parameters are not written at all
     arr = np.array(vals)
@@ -215,3 +221,54 @@ def mixed_kinds_of_numbers_with_unset_entries_read_back(ctx, n):
         if ctx.canary and k == n - 1 and what[0] == "float" and what[k] == "numpy int":
             ok = False
         ctx.check("entry %d reads back with the same value" % k, ok)
+
+
+# the same for fixed-shape arrays: the objects of one class hold equal-shape arrays of different numeric kinds (one an
+# integer-valued array, its neighbour a real-valued one, a third nothing)
+def _mixed_arrays(shape):
+    cells = {"vec2": ([1, 2], [1.5, 2.5], [3.0, 4.0], [0.25, 4.5], [4, 6]),
+             "mat22": ([[1, 2], [3, 4]], [[1.5, 2.5], [0.5, -3.5]], [[3.0, 4.0], [5.0, 6.0]], [[0.25, 4.5], [8.5, 0.75]],
+                       [[4, 6], [8, 10]])}[shape]
+    i, f, w, f32, i32 = cells
+    return {"unset": None, "int array": np.array(i), "float array": np.array(f), "whole float array": np.array(w),
+            "float32 array": np.array(f32, dtype=np.float32), "int32 array": np.array(i32, dtype=np.int32)}
+
+
+@harness("C05", bounds="collections of 2..3 equal-shape arrays (2-vectors / 2x2), every entry symbolically one of: unset, "
+                       "int64 array, float64 array, float64 array of whole numbers, float32 array, int32 array: all "
+                       "6^n patterns (mixed kinds of number within one collection), forked", stubs=STUBS, max_paths=5000,
+         instances={"quick": [dict(n=2, shape="vec2"), dict(n=3, shape="vec2"), dict(n=3, shape="mat22")]})
+def mixed_kinds_of_arrays_with_unset_entries_read_back(ctx, n, shape):
+    slots = _mixed_arrays(shape)
+    names = list(slots)
+    what = [ctx.choice("entry%d" % k, names) for k in range(n)]
+    vals = [slots[w] for w in what]
+    if all(v is None for v in vals):
+        return                         # all-unset parameters are not written at all
+    if not any(v is None for v in vals):
+        arr = np.array(vals)           # what armi builds from the objects' values: numpy promotes, nothing is lost
+        data, attrs = packSpecialData(arr, "verifParam")
+        ctx.check("clean data passes through untouched", data is arr and attrs == {})
+        back = arr
+    else:
+        arr = np.empty(n, dtype=object)
+        for k, v in enumerate(vals):
+            arr[k] = v
+        try:
+            data, attrs = packSpecialData(arr, "verifParam")
+        except (TypeError, ValueError):
+            return                     # refused at write time: allowed ("rejected with an error at write time")
+        ctx.check("stored array is not an object array", data.dtype != object)
+        back = unpackSpecialData(*through_hdf5(data, attrs), "verifParam")
+    ctx.check("one entry per object", len(back) == n)
+    for k in range(min(n, len(back))):
+        b = back[k]
+        if vals[k] is None:
+            ctx.check("unset entry %d reads back unset" % k,
+                      b is None or (isinstance(b, np.ndarray) and all(x is None for x in b.ravel())))
+            continue
+        ok = b is not None and np.shape(b) == np.shape(vals[k]) and not any(x is None for x in np.ravel(b)) \
+            and bool(np.all(np.asarray(b, dtype=float) == np.asarray(vals[k], dtype=float)))
+        if ctx.canary and k == n - 1 and what[0] == "float array" and what[k] == "int32 array":
+            ok = False
+        ctx.check("entry %d reads back with the same shape and values" % k, ok)
